@@ -390,6 +390,7 @@ impl Check for C17 {
             FRONT_ERRORS.len(),
             if thorough { "; pairs of nested positions" } else { "" }
         );
+        ctx.rule.push_str("; a later slot that does not lex / parse after a slot that printed or failed and the reverse, built-ins stored in objects and called through them, ill-shaped arguments for functions and loops with empty bodies");
         let mut cases: Vec<Case> = vec![];
         let paths = ["case.sd", "dir/sub/t.sd", "./x.sd"];
         let k = std::cell::Cell::new(0usize);
